@@ -50,6 +50,18 @@ def gen(ctx, tier, rng):
         ic = rng.choice(counters(rng))
         L.append("stream.chacha20_xor_ic %s %s %d %s" % (hexs(m), hexs(rb(rng, 8)), ic, K()))
         L.append("stream.salsa20_xor_ic %s %s %d %s" % (hexs(m), hexs(rb(rng, 8)), rng.choice(counters(rng)), K()))
+    # long requests: past 256 blocks (a counter byte carries) and several SIMD batch sizes later
+    for n in [4095, 4096, 4097, 8191, 8192, 8193, 16383, 16384, 16385, 16449, 20000] + ([65535, 65536, 65537, 100000] if full else []):
+        m = rb(rng, n)
+        L.append("stream.chacha20_xor_ic %s %s %d %s" % (hexs(m), hexs(rb(rng, 8)), rng.choice([0, 1, 250, (1 << 32) - 130, (1 << 64) - 70]), K()))
+        L.append("stream.salsa20_xor_ic %s %s %d %s" % (hexs(m), hexs(rb(rng, 8)), rng.choice([0, 1, 250, (1 << 32) - 130, (1 << 64) - 70]), K()))
+        L.append("stream.chacha20_ietf_xor_ic %s %s %d %s" % (hexs(m), hexs(rb(rng, 12)), rng.choice([0, 1, 250, (1 << 32) - 1 - (n + 63) // 64]), K()))
+        L.append("stream.xchacha20_xor_ic %s %s %d %s" % (hexs(m), hexs(rb(rng, 24)), rng.choice([0, 255]), K()))
+        L.append("stream.xsalsa20_xor_ic %s %s %d %s" % (hexs(m), hexs(rb(rng, 24)), rng.choice([0, 255]), K()))
+        L.append("stream.chacha20 %d %s %s" % (n, hexs(rb(rng, 8)), K()))
+        L.append("stream.salsa20 %d %s %s" % (n, hexs(rb(rng, 8)), K()))
+        L.append("stream.salsa2012 %d %s %s" % (n, hexs(rb(rng, 8)), K()))
+        L.append("stream.salsa208 %d %s %s" % (n, hexs(rb(rng, 8)), K()))
     for n in (dense if full else sparse):
         m = rb(rng, n)
         L.append("stream.chacha20 %d %s %s" % (n, hexs(rb(rng, 8)), K()))
